@@ -20,6 +20,7 @@ TRUSTED = [
     "pickle.load / Lark._load may raise any Exception subclass (assumed contract; truncation at every byte offset cross-checked natively); file objects: readline/read do not raise",
 ]
 ASSUMPTIONS = [
+    "writing the cache file does not fail (on IOError lark logs the error and continues without a cache: not modelled)",
     "MemoryError / RecursionError / KeyboardInterrupt are not modelled (a corrupted pickle length field can raise MemoryError: outside `except Exception` only for BaseException)",
     "the digest line protects the body against damage, not against a deliberate rewrite of both (the cache is not an authentication mechanism)",
     "a recorded file that can no longer be read is ignored by verify_used_files (as the code documents)",
@@ -68,6 +69,14 @@ def load_region(fn):
             while j > 0 and isinstance(n.body[j - 1], ast.Assign) and ast.unparse(n.body[j - 1].targets[0]).startswith('old_'):
                 j -= 1
             return n.body[j:i + 1]
+    return None
+
+
+def save_region(fn):
+    for n in ast.walk(fn):
+        # the statements guarded by exactly `if cache_fn:` (any other guard: the selector is lost and the check falls back to the native search)
+        if isinstance(n, ast.If) and ast.unparse(n.test) == 'cache_fn' and 'pickle.dump' in ast.unparse(n) and not n.orelse:
+            return n.body
     return None
 
 
@@ -163,4 +172,30 @@ def register(reg):
                                      'all(implies(j >= _i0 and j < len(_s0), _s0[j] in options) for j in INT)'])},
                  names={'FS.open': ('contract', 'FS.open'), 'pickle.load': ('contract', 'pickle.load'), 'BytesIO': ('contract', 'BytesIO'),
                         'sha256_digest': ('contract', 'lark.utils:sha256_digest'), 'verify_used_files': ('contract', 'verify_used_files/any')},
+                 replay=_replay)
+
+
+    # ---- cache-save region: whenever a cache file name is in force and the load attempt did not return, the file is (re)written, and what
+    # is written is a valid entry for this key: key line, digest of the rest, the rest (so the next build is a clean hit; a stale or damaged
+    # file is replaced)
+    reg.cls('OutFile', fields={'content': 'str'})
+    reg.contract('FS.open/wb', assumed=True, params={'name': 'str', 'mode': 'str'}, returns='OutFile', ensures=['fresh(result)', "result.content == ''", 'OPENED(result) == name'])
+    reg.specfun('OPENED', [('f', 'OutFile')], 'str')
+    reg.contract('BytesIO/new', assumed=True, params={}, returns='OutFile', ensures=['fresh(result)', "result.content == ''"])
+    reg.contract('OutFile.write', assumed=True, kind='method', params={'self': 'OutFile', 'data': 'str'}, modifies=['self'], ensures=['self.content == old(self.content) + data'])
+    reg.contract('OutFile.getvalue', assumed=True, kind='method', pure=True, params={'self': 'OutFile'}, returns='str', ensures=['result == self.content'])
+    reg.specfun('PICKLED', [('x', 'any')], 'str')
+    reg.specfun('SAVED', [('l', 'Lark'), ('exclude', 'any')], 'str')
+    reg.contract('pickle.dump', assumed=True, params={'obj': 'any', 'f': 'OutFile'}, modifies=['f'], ensures=['f.content == old(f.content) + PICKLED(obj)'])
+    reg.contract('lark.lark:Lark.save', assumed=True, kind='method', params={'self': 'Lark', 'f': 'OutFile', 'exclude_options': 'any'}, modifies=['f'],
+                 ensures=['f.content == old(f.content) + SAVED(self, exclude_options)'])
+    reg.contract('lark.lark:Lark.__init__#save', serves=['C12', 'C11'], region=save_region,
+                 params={'self': 'Lark', 'cache_fn': 'str', 'cache_sha256': 'opt[str]', 'used_files': 'any', '_LOAD_ALLOWED_OPTIONS': 'any'},
+                 requires=['len(cache_fn) > 0', 'cache_sha256 is not None'],          # inside `if cache_fn:`; the key hash was computed with the name
+                 ghost={'ensures_fall': [
+                     "OPENED(f) == cache_fn",
+                     "body == PICKLED(used_files) + SAVED(self, _LOAD_ALLOWED_OPTIONS)",
+                     "f.content == val(cache_sha256).encode('utf8') + b'\\n' + SHA(body.decode('latin-1')).encode('utf8') + b'\\n' + body"]},
+                 names={'FS.open': ('contract', 'FS.open/wb'), 'BytesIO': ('contract', 'BytesIO/new'), 'pickle.dump': ('contract', 'pickle.dump'),
+                        'sha256_digest': ('contract', 'lark.utils:sha256_digest')},
                  replay=_replay)
